@@ -786,6 +786,14 @@ func chunkSegment(init *mp4.InitSegment, seg *mp4.MediaSegment, segMeta segMeta,
 	chunks := make([]chunk, 0, segMeta.newDur/uint32(chunkDur))
 	trackID := init.Moov.Trak.Tkhd.TrackID
 	ch := createChunk(seg.Styp, trackID, segMeta.newNr)
+	// Event messages (e.g. the announced SCTE-35 events) travel in front of the first chunk
+	if len(seg.Fragments) > 0 {
+		for _, c := range seg.Fragments[0].Children {
+			if emsg, ok := c.(*mp4.EmsgBox); ok {
+				ch.frag.AddEmsg(emsg)
+			}
+		}
+	}
 	chunkNr := 1
 	var accChunkDur uint32 = 0
 	var totalDur = 0
